@@ -1535,6 +1535,9 @@ func (t *tScreen) parseClipboard(buf *bytes.Buffer, evs *[]Event) (bool, bool) {
 		// definitely not a match
 		return false, false
 	}
+	if !bytes.HasPrefix(b, prefix) {
+		return false, false
+	}
 	b = b[len(prefix):]
 
 	for i, c := range b {
